@@ -15,8 +15,14 @@ oracle: the property itself (conservation, hold-out share, idempotence after
 """
 import json
 
+import os
+import sys
+
 import vv
 import prims_common as pc
+
+sys.path.insert(0, os.path.join(vv.VERIF, "translate"))
+import valid_facts
 
 SENT = 4294967295
 M64 = (1 << 64) - 1
@@ -556,11 +562,22 @@ def build_tree():
 
 def run(ck):
     harness = build_tree()
+    # regenerate the facts the model interprets (Gen/ValidFacts.v) from the tree under test
+    text, problems = valid_facts.generate(vv.snapshot()[0])
+    if problems:
+        ck.notes.append("translator: " + "; ".join(problems)[:500] +
+                        " -- Gen/ValidFacts.v kept as hand-written model, tie = correspondence only")
+    else:
+        with vv.Lock("coq"):
+            vv.write_if_changed(os.path.join(vv.COQ, "Gen", "ValidFacts.v"), text)
+        ck.tie = "regenerated+correspondence"
     res = vv.prove("Properties_C16", vv.FLOCQ_AXIOMS)
     ck.add_proof(res)
     # what is false of the pinned tree's model (the typeid finding), kept as machine-checked witnesses
     ck.add_proof(vv.prove("Refuted_C16", set()))
-    ck.trusted += ["extraction: ExtrOcamlBasic only, no Extract Constant; ocaml/valid_driver.ml + zutil.ml",
+    ck.trusted += ["translate/valid_facts.py (expressions / call sequences of holdout_validation.cc and dss.cc -> "
+                   "Gen/ValidFacts.v) and the interpreter of those facts in coq/Valid/ValidDefs.v",
+                   "extraction: ExtrOcamlBasic only, no Extract Constant; ocaml/valid_driver.ml + zutil.ml",
                    "harness/h_valid.cc (dump format, attribution of logged draws to calls); hook H1 (draw sink)",
                    "g++ 12 ASan/UBSan as the detector of executed undefined behaviour"]
     ck.assumptions += [
